@@ -98,7 +98,7 @@ def r1_stateful_chunks(ctx):
 
 def r2_terminator_prefixes(ctx):
     ctx.rule("C12.R2", "DelimSource.read (line mode): the keep-pending decision, constant-folded over the last character classes "
-                       "{CR, LF, other}, defers an unterminated tail AND a trailing CR (proper prefix of CRLF); pending text is "
+                       "{CR, LF, other line boundaries of str.splitlines (VT, NEL, LS), ordinary character}, defers an unterminated tail AND a trailing CR (proper prefix of CRLF) and nothing else; pending text is "
                        "joined to the next chunk before it is split again")
     fn = ctx.fn(SRC, "DelimSource.read")
     arm = None
@@ -115,7 +115,7 @@ def r2_terminator_prefixes(ctx):
     lp = loops[0]
     tv = unparse(lp.target)
     defer_sites = [x for x in walk_shallow(lp) if isinstance(x, ast.Assign) and unparse(x.targets[0]) == PENDING and unparse(x.value) != "None"]
-    for cls, ch, need in (("CR", "\r", True), ("LF", "\n", False), ("other", "x", True)):
+    for cls, ch, need in (("CR", "\r", True), ("LF", "\n", False), ("other", "x", True), ("VT", "\x0b", False), ("NEL", "\x85", False), ("LS", "\u2028", False)):
         fe = FlagEval({f"{tv}[-1]": ch}, opaque=lambda e: TOP)
         deferred = False
         for s in defer_sites:
@@ -129,7 +129,7 @@ def r2_terminator_prefixes(ctx):
             ctx.ob("C12.R2", SRC, "DelimSource.read", lp, f"a chunk ending in {cls} keeps its tail pending", deferred,
                    stmt=f"defer on trailing {cls}", detail={"defer_conditions": [[unparse(t) + ("" if p else " (negated)") for t, p in guards_of(s, lp)] for s in defer_sites]})
         else:
-            ctx.ob("C12.R2", SRC, "DelimSource.read", lp, "a chunk ending in LF releases all its lines", not deferred, stmt="no defer on LF", trivial=True)
+            ctx.ob("C12.R2", SRC, "DelimSource.read", lp, f"a chunk ending in {cls} (a line boundary for splitlines) releases all its lines", not deferred, stmt=f"no defer on {cls}", trivial=True)
     # join-before-split
     joins = [x for x in walk_shallow(lp) if isinstance(x, ast.Assign) and f"{PENDING} +" in unparse(x.value)]
     splits = [x for x in walk_shallow(lp) if isinstance(x, ast.Assign) and ".splitlines(" in unparse(x.value)]
@@ -315,6 +315,7 @@ def r7_csv_dialect(ctx):
 
 
 CONTROLS = [
+    ("only LF completes a line", SRC, M.replace_expr("DelimSource.read", "text[-1].splitlines()[0]", "text[-1] != '\\n'"), "C12.R2"),
     ("batched sink truncates on every batch", SNK, M.delete_stmt("DiskSink.__exit__", M.text_has("if self._mode[:1] == 'w': self._mode = 'a' + self._mode[1:]")), "C12.R3"),
     ("backslash escape injected into the csv dialect", RDR, M.replace_expr("CsvReader.__init__", "dialect", "{'escapechar': '\\\\', **dialect}", nth=0), "C12.R7"),
     ("only interior ? after compaction", RDR, M.replace_expr("ArffDataReader._dense", "compact[:2] == '?,' or ',?,' in compact or compact[-2:] == ',?'", "',?,' in compact"), "C12.R6"),
